@@ -198,13 +198,14 @@ def handlers : List (String × (List String → String)) := [
     | [offs] => do pure (ansTexts (t.divide v (← decNats? offs)))
     | _ => none),
   ("text_split", h1 fun v t a => match a with
-    | [sep, incl, blank] => do pure (ansTexts (t.split v (← decStr? sep) (decBool incl) (decBool blank)))
+    | [sep, incl, blank, endsw] => do pure (ansTexts (Text.splitW (decBool endsw) v t (← decStr? sep) (decBool incl) (decBool blank)))
     | _ => none),
   ("text_get_item", h1 fun v t a => match a with
     | [i] => do pure (ansText (t.getItem v 0 (← decInt? i)))
     | _ => none),
   ("text_get_slice", h1 fun v t a => match a with
     | [s, e] => do pure (ansText (t.getSlice v (← decOptInt? s) (← decOptInt? e)))
+    | [s, e, st] => do pure (ansText (t.getSliceStep v (← decOptInt? s) (← decOptInt? e) (← decOptInt? st)))
     | _ => none),
   ("text_pad", h1 fun _ t a => match a with
     | [n, c] => do pure (ansText (.ok (t.pad (← decInt? n) (← decChar? c))))
@@ -240,6 +241,24 @@ def handlers : List (String × (List String → String)) := [
     | _ => none),
   ("text_expand_tabs", h1 fun v t a => match a with
     | [ts] => do pure (ansText (t.expandTabs v (← decOptNat? ts)))
+    | _ => none),
+  ("text_remove_suffix", h1 fun v t a => match a with
+    | [s] => do pure (ansText (.ok (t.removeSuffix v (← decStr? s))))
+    | _ => none),
+  ("text_fit", h1 fun v t a => match a with
+    | [w] => do pure (ansTexts (t.fit v (← decInt? w)))
+    | _ => none),
+  ("text_add_str", h1 fun v t a => match a with
+    | [s] => do pure (ansText (.ok (t.addStr v (← decStr? s))))
+    | _ => none),
+  ("text_add_t", h1 fun v t a => match a with
+    | [u] => do
+      let u ← decText? u
+      if !okState u then none else pure (ansText (.ok (t.addText v u)))
+    | _ => none),
+  ("text_detect_indentation", h1 fun _ t _ => some (toString t.detectIndentation)),
+  ("text_indent_guides", h1 fun v t a => match a with
+    | [size, ch, st] => do pure (ansText (t.withIndentGuides v 0 (← decOptNat? size) (← decStr? ch) (← decNat? st)))
     | _ => none),
   ("text_render", h1 fun _ t a => match a with
     | [e] => do pure (encRender (t.render (← decStr? e)))
